@@ -397,19 +397,12 @@ Proof. induction l; cbn; auto. Qed.
 Lemma step_inv s e : Inv s -> Inv (step current s e).
 Proof.
   intro I. unfold step. rewrite (i_nopanic _ I).
-  destruct e as [h n|h|h n|blk nonce newtx| |rs| |fb|w| |].
+  destruct e as [h n|h|h n|blk nonce newtx| |rs| |fb|w| | |h n|b c newtx].
   - (* Sent *)
-    cbn [fresh]. cbv zeta. projs.
-    change (Inv (watch_tx current (side s ((h, n) :: remove_key h (pending s)) (internal s ++ [(next s, h)])
-                                       (refused s) (sent s ++ [h]) (filter (fun k => negb (k =? h)) (flagged s))) (next s) h n)).
-    apply watch_tx_inv.
-    + apply side_inv; [exact I|]. intros h0 n0 [Heq|Hin].
-      * inversion Heq; subst. apply in_or_app. right. left. reflexivity.
-      * apply in_or_app. left. apply remove_key_sub in Hin. exact (i_pending _ I _ _ Hin).
-    + reflexivity.
-    + exact (i_ltw _ I).
-    + exact (i_ltc _ I).
-    + exact (i_ltwatch _ I).
+    dI I. constructor; projs; auto.
+    intros h0 n0 [Heq|Hin].
+    + inversion Heq; subst. apply in_or_app. right. left. reflexivity.
+    + apply in_or_app. left. apply remove_key_sub in Hin. exact (i_pending0 _ _ Hin).
   - (* Watch *)
     cbn [fresh]. cbv zeta. projs. destruct (lookup h (pending s)) as [n|].
     + change (Inv (watch_tx current (side s (pending s) (internal s) (refused s) (sent s) (flagged s)) (next s) h n)).
@@ -476,6 +469,25 @@ Proof.
     specialize (D J). clear J. dI D. revert i_nopanic0 i_open0 i_nodupw0 i_deliv0 i_nodupc0 i_ltw0 i_ltc0 i_drained0
       i_exited0 i_wait_watch0 i_watch_acc0 i_ltwatch0 i_nodupwatch0 i_receipt0 i_cancel0 i_closed0 i_chk0 i_pending0 i_exdr0.
     projs. intros. constructor; projs; auto.
+  - (* InternalWatch *)
+    cbn [fresh]. cbv zeta. projs.
+    change (Inv (watch_tx current (side s (pending s) (internal s ++ [(next s, h)])
+                                       (refused s) (sent s) (flagged s)) (next s) h n)).
+    apply watch_tx_inv; [apply side_inv; [exact I|exact (i_pending _ I)]|reflexivity|exact (i_ltw _ I)|
+                         exact (i_ltc _ I)|exact (i_ltwatch _ I)].
+  - (* PollLost *)
+    destruct (wl_exited s) eqn:Hex; [exact I|].
+    destruct ((b <=? last_block s) && negb newtx); [exact I|].
+    dI I. constructor; projs; auto.
+    + intro Hd. destruct (i_drained0 Hd) as [_ H]. rewrite Hex in H. discriminate.
+    + discriminate.
+    + intros w Hin. destruct (i_cancel0 _ Hin) as (h1 & n1 & c1 & r & H1 & H2 & H3 & H4 & H5).
+      exists h1, n1, c1, r. repeat split; auto. apply in_or_app. auto.
+    + unfold chk_ok in *. projs. destruct (chk s) as [|c0|c0 snap q].
+      * exact Logic.I.
+      * apply in_or_app. auto.
+      * destruct i_chk0 as (H1 & H2 & H3). split; [apply in_or_app; auto|auto].
+    + discriminate.
 Qed.
 
 Theorem inv_init : Inv init.
@@ -519,9 +531,15 @@ Qed.
 Definition from_node (evs : list event) (h : N) (r : reply) : Prop :=
   (exists rs, In (BatchReply rs) evs /\ In (h, r) rs) \/ In (Proc (Some r)) evs.
 
+(* the node reported confirmed nonce c to some iteration of the watch loop *)
+Definition polled (evs : list event) (c : N) : Prop :=
+  exists b nt, In (Poll (Some b) (Some c) nt) evs \/ In (PollLost b c nt) evs.
+Lemma polled_app evs e c : polled evs c -> polled (evs ++ [e]) c.
+Proof. intros (b & nt & [H|H]); exists b, nt; [left|right]; apply in_or_app; auto. Qed.
+
 Record Src (evs : list event) (s : mon) : Prop := {
   s_closed : closed s = true -> In Close evs;
-  s_confs : forall c, In c (confs s) -> exists b nt, In (Poll (Some b) (Some c) nt) evs;
+  s_confs : forall c, In c (confs s) -> polled evs c;
   s_answers : forall c h r, In (c, h, r) (answers s) -> from_node evs h r;
   s_queue : match chk s with
             | InFlight c snap q => forall n h r, In (n, h, r) q -> exists rs, In (BatchReply rs) evs /\ In (h, r) rs
@@ -534,7 +552,7 @@ Lemma src_weaken evs e s s' : Src evs s -> frame s s' -> Src (evs ++ [e]) s'.
 Proof.
   intros [A B C D E] (F1 & F2 & F3 & F4 & F5). constructor.
   - rewrite F1. intro H. apply in_or_app. auto.
-  - rewrite F2. intros c Hc. destruct (B c Hc) as (b & nt & H). exists b, nt. apply in_or_app. auto.
+  - rewrite F2. intros c Hc. apply polled_app. exact (B c Hc).
   - rewrite F3. intros c h r H. destruct (C c h r H) as [(rs & H1 & H2)|H1].
     + left. exists rs. split; [apply in_or_app; auto|exact H2].
     + right. apply in_or_app. auto.
@@ -576,23 +594,11 @@ Lemma src_step evs s e : Inv s -> Src evs s -> Src (evs ++ [e]) (step current s 
 Proof.
   intros I S. unfold step. rewrite (i_nopanic _ I).
   assert (W : forall s', frame s s' -> Src (evs ++ [e]) s') by (intros; eapply src_weaken; eauto).
-  destruct e as [h n|h|h n|blk nonce newtx| |rs| |fb|w| |].
-  - cbn [fresh]. cbv zeta. destruct S as [A B C D E]. constructor.
-    + match goal with |- closed (watch_tx ?v ?t ?w ?h ?n) = true -> _ => destruct (frame_watch v t w h n) as (F1 & _); rewrite F1 end.
-      cbn. intro H. apply in_or_app. auto.
-    + match goal with |- forall c, In c (confs (watch_tx ?v ?t ?w ?h ?n)) -> _ => destruct (frame_watch v t w h n) as (_ & F2 & _); rewrite F2 end.
-      cbn. intros c Hc. destruct (B c Hc) as (b & nt & H). exists b, nt. apply in_or_app. auto.
-    + match goal with |- forall c h r, In _ (answers (watch_tx ?v ?t ?w ?h0 ?n)) -> _ => destruct (frame_watch v t w h0 n) as (_ & _ & F3 & _); rewrite F3 end.
-      cbn. intros c h0 r H. destruct (C c h0 r H) as [(rs & H1 & H2)|H1].
-      * left. exists rs. split; [apply in_or_app; auto|exact H2].
-      * right. apply in_or_app. auto.
-    + match goal with |- match chk (watch_tx ?v ?t ?w ?h0 ?n) with _ => _ end => destruct (frame_watch v t w h0 n) as (_ & _ & _ & F4 & _); rewrite F4 end.
-      cbn. destruct (chk s); auto. intros n0 h0 r H. destruct (D n0 h0 r H) as (rs & H1 & H2). exists rs.
-      split; [apply in_or_app; auto|exact H2].
-    + match goal with |- forall h, In h (sent (watch_tx ?v ?t ?w ?h0 ?n)) -> _ => destruct (frame_watch v t w h0 n) as (_ & _ & _ & _ & F5); rewrite F5 end.
-      cbn. intros h0 H. apply in_app_or in H. destruct H as [H|[<-|[]]].
-      * destruct (E h0 H) as (n0 & Hn). exists n0. apply in_or_app. auto.
-      * exists n. apply in_or_app. right. left. reflexivity.
+  destruct e as [h n|h|h n|blk nonce newtx| |rs| |fb|w| | |h n|b c newtx].
+  - destruct (src_weaken evs (Sent h n) s s S (frame_refl s)) as [A B C D E].
+    constructor; cbn [closed confs answers chk sent]; auto.
+    intros h0 H. apply in_app_or in H. destruct H as [H|[<-|[]]]; [exact (E h0 H)|].
+    exists n. apply in_or_app. right. left. reflexivity.
   - cbn [fresh]. cbv zeta. cbn [pending]. destruct (lookup h (pending s)).
     + apply W. eapply frame_trans; [|apply frame_watch]. repeat split.
     + apply W. repeat split.
@@ -602,8 +608,8 @@ Proof.
     destruct S as [A B C D E]. constructor; cbn [closed confs answers chk sent].
     + intro H. apply in_or_app. auto.
     + intros c0 Hc. apply in_app_or in Hc. destruct Hc as [Hc|[<-|[]]].
-      * destruct (B c0 Hc) as (b0 & nt & H). exists b0, nt. apply in_or_app. auto.
-      * exists b, newtx. apply in_or_app. right. left. reflexivity.
+      * apply polled_app. exact (B c0 Hc).
+      * exists b, newtx. left. apply in_or_app. right. left. reflexivity.
     + intros c0 h r H. destruct (C c0 h r H) as [(rs & H1 & H2)|H1].
       * left. exists rs. split; [apply in_or_app; auto|exact H2].
       * right. apply in_or_app. auto.
@@ -642,6 +648,13 @@ Proof.
   - destruct (closed s && negb (wl_exited s)); [|apply W, frame_refl].
     destruct (frame_fold OClosed (map waiter_of (wait s)) s) as (F1 & F2 & F3 & F4 & F5).
     apply W. repeat split; cbn [closed confs answers chk sent]; assumption.
+  - cbn [fresh]. cbv zeta. apply W. eapply frame_trans; [|apply frame_watch]. repeat split.
+  - destruct (wl_exited s); [apply W, frame_refl|].
+    destruct ((b <=? last_block s) && negb newtx); [apply W, frame_refl|].
+    destruct (src_weaken evs (PollLost b c newtx) s s S (frame_refl s)) as [A B C D E].
+    constructor; cbn [closed confs answers chk sent]; auto.
+    intros c0 Hc. apply in_app_or in Hc. destruct Hc as [Hc|[<-|[]]]; [exact (B c0 Hc)|].
+    exists b, newtx. right. apply in_or_app. right. left. reflexivity.
 Qed.
 
 Lemma run_snoc v evs e : run v (evs ++ [e]) = step v (run v evs) e.
@@ -715,13 +728,14 @@ Proof.
 Qed.
 
 Theorem truthful_cancel : forall evs w, In (w, OCancelled) (delivered (run current evs)) ->
-  exists h n c r b nt, In (w, h, n) (watchers (run current evs)) /\
-    In (Poll (Some b) (Some c) nt) evs /\ n < c /\
+  exists h n c r, In (w, h, n) (watchers (run current evs)) /\
+    polled evs c /\ n < c /\
     from_node evs h r /\ no_receipt r = true.
 Proof.
   intros evs w H. destruct (i_cancel _ (inv_run evs) _ H) as (h & n & c & r & H1 & H2 & H3 & H4 & H5).
-  destruct (s_confs _ _ (src_run evs) _ H5) as (b & nt & Hp).
-  exists h, n, c, r, b, nt. repeat split; auto. exact (s_answers _ _ (src_run evs) _ _ _ H2).
+  exists h, n, c, r. repeat split; auto.
+  - exact (s_confs _ _ (src_run evs) _ H5).
+  - exact (s_answers _ _ (src_run evs) _ _ _ H2).
 Qed.
 
 Theorem truthful_closed : forall evs w, In (w, OClosed) (delivered (run current evs)) -> In Close evs.
@@ -746,17 +760,6 @@ Proof.
     apply filter_In. split; [exact Hin|]. cbn. apply N.ltb_lt. exact Hlt. }
   unfold finish. destruct (older c (wait s)) as [|a l]; [destruct Ho|]. exists (a :: l). auto.
 Qed.
-
-Definition resolves (h : N) (r : reply) (fb : option reply) : option wout :=
-  match r with
-  | RReceipt st => Some (OReceipt h st)
-  | RNotFound => Some OCancelled
-  | _ => match fb with
-         | Some (RReceipt st) => Some (OReceipt h st)
-         | Some RNotFound => Some OCancelled
-         | _ => None
-         end
-  end.
 
 Lemma key_is_true n h w : key_is n h (n, h, w) = true.
 Proof. cbn. rewrite !N.eqb_refl. reflexivity. Qed.
@@ -826,8 +829,8 @@ Proof.
   { intros. unfold notify. cbv zeta. cbn [set_wait wl_exited]. apply Ff. }
   assert (Fw : forall t w h n, wl_exited (watch_tx current t w h n) = wl_exited t).
   { intros. unfold watch_tx. cbv zeta. cbn [drained]. destruct (fix_drain current && drained t); [rewrite Fs|]; reflexivity. }
-  destruct e as [h n|h|h n|blk nonce newtx| |rs| |fb|w| |].
-  - cbn [fresh]. cbv zeta. rewrite Fw. exact Hex.
+  destruct e as [h n|h|h n|blk nonce newtx| |rs| |fb|w| | |h n|b c newtx].
+  - exact Hex.
   - cbn [fresh]. cbv zeta. cbn [pending]. destruct (lookup h (pending s)); [rewrite Fw|]; exact Hex.
   - cbn [fresh]. cbv zeta. rewrite Fw. exact Hex.
   - rewrite Hex. exact Hex.
@@ -842,6 +845,8 @@ Proof.
     destruct (lookup hh (pending (set_internal s (remove_key w (internal s))))); exact Hex.
   - exact Hex.
   - rewrite Hex. rewrite andb_false_r. exact Hex.
+  - cbn [fresh]. cbv zeta. rewrite Fw. exact Hex.
+  - rewrite Hex. exact Hex.
 Qed.
 
 Theorem drained_forever : forall evs evs', drained (run current evs) = true ->
@@ -914,7 +919,7 @@ Qed.
 
 (* ---- the code before the three repairs ------------------------------------------------------- *)
 Example no_panic_refuted :
-  panicked (run v0_drain [Sent 1 0; Poll (Some 1) (Some 1) true; CheckBegin; Close; Drain;
+  panicked (run v0_drain [Sent 1 0; InternalWatch 1 0; Poll (Some 1) (Some 1) true; CheckBegin; Close; Drain;
                           BatchReply [(1, RReceipt 1)]; Proc None]) = true.
 Proof. vm_compute. reflexivity. Qed.
 
@@ -924,37 +929,37 @@ Example late_waiter_refuted :
 Proof. vm_compute. auto. Qed.
 
 Example resolved_refuted :
-  let s := run v0_fallback [Sent 1 0; Poll (Some 1) (Some 1) true; CheckBegin;
+  let s := run v0_fallback [Sent 1 0; InternalWatch 1 0; Poll (Some 1) (Some 1) true; CheckBegin;
                             BatchReply [(1, RNullOverWire)]; Proc (Some RNotFound)] in
   chk s = Idle /\ wait s = [(0, 1, 0)] /\ delivered s = [].
 Proof. vm_compute. auto. Qed.
 
 Example pending_refuted :
-  let s := run v0_pending [Sent 1 0; Poll (Some 1) (Some 1) true; CheckBegin;
+  let s := run v0_pending [Sent 1 0; InternalWatch 1 0; Poll (Some 1) (Some 1) true; CheckBegin;
                            BatchReply [(1, RNotFound)]; Proc None; InternalRun 0] in
   delivered s = [(0, OCancelled)] /\ internal s = [] /\ pending_hashes s = [1].
 Proof. vm_compute. auto. Qed.
 
 (* the same histories on the current code *)
 Example no_panic_now :
-  let s := run current [Sent 1 0; Poll (Some 1) (Some 1) true; CheckBegin; Close; Drain;
+  let s := run current [Sent 1 0; InternalWatch 1 0; Poll (Some 1) (Some 1) true; CheckBegin; Close; Drain;
                         BatchReply [(1, RReceipt 1)]; Proc None] in
   panicked s = false /\ delivered s = [(0, OClosed)].
 Proof. vm_compute. auto. Qed.
 Example resolved_now :
-  let s := run current [Sent 1 0; Poll (Some 1) (Some 1) true; CheckBegin;
+  let s := run current [Sent 1 0; InternalWatch 1 0; Poll (Some 1) (Some 1) true; CheckBegin;
                         BatchReply [(1, RNullOverWire)]; Proc (Some RNotFound)] in
   wait s = [] /\ delivered s = [(0, OCancelled)].
 Proof. vm_compute. auto. Qed.
 Example pending_now :
-  let s := run current [Sent 1 0; Poll (Some 1) (Some 1) true; CheckBegin;
+  let s := run current [Sent 1 0; InternalWatch 1 0; Poll (Some 1) (Some 1) true; CheckBegin;
                         BatchReply [(1, RNotFound)]; Proc None; InternalRun 0] in
   pending_hashes s = [] /\ pending s = [(1, 0)] /\ flagged s = [1].
 Proof. vm_compute. auto. Qed.
 
 (* ---- non-vacuity: histories that exercise every outcome kind ------------------------------ *)
 Definition demo : list event :=
-  [Sent 1 0; Sent 2 1; Sent 3 2; Watch 1; WatchRaw 2 1; Watch 9;
+  [Sent 1 0; InternalWatch 1 0; Sent 2 1; InternalWatch 2 1; Sent 3 2; InternalWatch 3 2; Watch 1; WatchRaw 2 1; Watch 9;
    Poll (Some 5) (Some 2) false; CheckBegin; Watch 2;
    BatchReply [(2, RNullOverWire); (1, RReceipt 1)]; Proc (Some RNotFound); Proc None;
    InternalRun 0; InternalRun 1; Close; Watch 3; Drain; WatchRaw 3 2; InternalRun 2].
@@ -991,10 +996,8 @@ Proof. reflexivity. Qed.
 Lemma chk_adv s c snap q e : Inv s -> chk s = InFlight c snap q -> chk (step current s e) = adv c snap q e.
 Proof.
   intros I Hk. unfold step. rewrite (i_nopanic _ I).
-  destruct e as [h n|h|h n|blk nonce newtx| |rs| |fb|w| |]; cbn [adv].
-  - cbn [fresh]. cbv zeta.
-    match goal with |- chk (watch_tx ?v ?t ?w ?h ?n) = _ => destruct (frame_watch v t w h n) as (_ & _ & _ & F & _); rewrite F end.
-    exact Hk.
+  destruct e as [h n|h|h n|blk nonce newtx| |rs| |fb|w| | |h n|b c1 newtx]; cbn [adv].
+  - exact Hk.
   - cbn [fresh]. cbv zeta. cbn [pending]. destruct (lookup h (pending s)).
     + match goal with |- chk (watch_tx ?v ?t ?w ?h ?n) = _ => destruct (frame_watch v t w h n) as (_ & _ & _ & F & _); rewrite F end.
       exact Hk.
@@ -1015,6 +1018,10 @@ Proof.
   - exact Hk.
   - destruct (closed s && negb (wl_exited s)); [|exact Hk]. cbn [chk].
     destruct (frame_fold OClosed (map waiter_of (wait s)) s) as (_ & _ & _ & F & _). rewrite F. exact Hk.
+  - cbn [fresh]. cbv zeta.
+    match goal with |- chk (watch_tx ?v ?t ?w ?h ?n) = _ => destruct (frame_watch v t w h n) as (_ & _ & _ & F & _); rewrite F end.
+    exact Hk.
+  - destruct (wl_exited s); [exact Hk|]. destruct ((b <=? last_block s) && negb newtx); exact Hk.
 Qed.
 
 (* ---- outcomes, once delivered, stay -------------------------------------------------------- *)
@@ -1046,8 +1053,8 @@ Qed.
 Lemma dext_step s e : dext s (step current s e).
 Proof.
   unfold step. destruct (panicked s); [apply dext_same; reflexivity|].
-  destruct e as [h n|h|h n|blk nonce newtx| |rs| |fb|w| |].
-  - cbn [fresh]. cbv zeta. eapply dext_trans; [|apply dext_watch]. apply dext_same; reflexivity.
+  destruct e as [h n|h|h n|blk nonce newtx| |rs| |fb|w| | |h n|b c1 newtx].
+  - apply dext_same; reflexivity.
   - cbn [fresh]. cbv zeta. cbn [pending]. destruct (lookup h (pending s)).
     + eapply dext_trans; [|apply dext_watch]. apply dext_same; reflexivity.
     + apply dext_same; reflexivity.
@@ -1066,6 +1073,9 @@ Proof.
   - apply dext_same; reflexivity.
   - destruct (closed s && negb (wl_exited s)); [|apply dext_same; reflexivity].
     destruct (dext_fold OClosed (map waiter_of (wait s)) s) as [l H]. exists l. exact H.
+  - cbn [fresh]. cbv zeta. eapply dext_trans; [|apply dext_watch]. apply dext_same; reflexivity.
+  - destruct (wl_exited s); [apply dext_same; reflexivity|].
+    destruct ((b <=? last_block s) && negb newtx); apply dext_same; reflexivity.
 Qed.
 
 Lemma dext_run_from : forall evs s, dext s (run_from current s evs).
@@ -1119,8 +1129,8 @@ Lemma wait_step s c snap q e n h w : Inv s -> chk s = InFlight c snap q -> In (n
   In (n, h, w) (wait (step current s e)) \/ (e = Drain /\ In (w, OClosed) (delivered (step current s e))).
 Proof.
   intros I Hk Hin Hh. unfold step. rewrite (i_nopanic _ I).
-  destruct e as [h0 n0|h0|h0 n0|blk nonce newtx| |rs| |fb|w0| |].
-  - left. cbn [fresh]. cbv zeta. apply wait_watch. exact Hin.
+  destruct e as [h0 n0|h0|h0 n0|blk nonce newtx| |rs| |fb|w0| | |h0 n0|b c1 newtx].
+  - left. exact Hin.
   - left. cbn [fresh]. cbv zeta. cbn [pending]. destruct (lookup h0 (pending s)); [apply wait_watch|]; exact Hin.
   - left. cbn [fresh]. cbv zeta. apply wait_watch. exact Hin.
   - left. destruct (wl_exited s); [exact Hin|]. destruct blk as [b|]; [|exact Hin].
@@ -1141,6 +1151,8 @@ Proof.
       apply in_map_iff. exists (n, h, w). split; [reflexivity|exact Hin].
     + intros w1 Hw. apply in_map_iff in Hw. destruct Hw as (e & <- & He). exact (i_open _ I e He).
     + exact (i_nodupw _ I).
+  - left. cbn [fresh]. cbv zeta. apply wait_watch. exact Hin.
+  - left. destruct (wl_exited s); [exact Hin|]. destruct ((b <=? last_block s) && negb newtx); exact Hin.
 Qed.
 
 Lemma in_delivered_run_from evs s w o : In (w, o) (delivered s) -> In (w, o) (delivered (run_from current s evs)).
@@ -1231,8 +1243,8 @@ Qed.
 (* non-vacuity of [complete_check]: two transactions, batches of one, a new waiter and a send in
    between; transaction 2 (nonce 1) is answered "null" in the batch and NotFound individually *)
 Example complete_check_demo :
-  let pre := [Sent 1 0; Sent 2 1; WatchRaw 2 1; Poll (Some 7) (Some 2) false] in
-  let mid := [BatchReply [(1, RReceipt 1)]; Watch 2; Proc None; Sent 3 2; BatchReply [(2, RNullOverWire)]] in
+  let pre := [Sent 1 0; InternalWatch 1 0; Sent 2 1; InternalWatch 2 1; WatchRaw 2 1; Poll (Some 7) (Some 2) false] in
+  let mid := [BatchReply [(1, RReceipt 1)]; Watch 2; Proc None; Sent 3 2; InternalWatch 3 2; BatchReply [(2, RNullOverWire)]] in
   chk (run current pre) = Handed 2 /\ In (1, 2, 2) (wait (run current pre)) /\
   complete_check 1 2 2 (older 2 (wait (run current pre))) mid RNullOverWire /\
   resolves 2 RNullOverWire (Some RNotFound) = Some OCancelled /\
@@ -1267,7 +1279,7 @@ Qed.
    the confirmed nonce has passed, yet k further polls of block 5 leave it waiting; the poll of
    block 6 resolves it *)
 Example resolution_without_new_block_refuted : forall k,
-  let pre := [Poll (Some 5) (Some 1) false; CheckBegin; Sent 1 0; WatchRaw 1 0] in
+  let pre := [Poll (Some 5) (Some 1) false; CheckBegin; Sent 1 0; InternalWatch 1 0; WatchRaw 1 0] in
   let s := run current (pre ++ repeat (Poll (Some 5) (Some 1) false) k) in
   wait s = [(0, 1, 0); (0, 1, 1)] /\ delivered s = [] /\ chk s = Idle /\
   delivered (run current ((pre ++ repeat (Poll (Some 5) (Some 1) false) k) ++
@@ -1307,3 +1319,628 @@ Proof.
   assert (E : (b <=? last_block s) = false) by (apply N.leb_gt; exact Hb). rewrite E. cbn [andb].
   cbn [chk last_block]. rewrite Hk. auto.
 Qed.
+
+(* ==================== audit round: strong provenance, refusals, lost hand-over, pending ==================== *)
+Lemma notify_new s n h o w o' : Inv s -> In (w, o') (delivered (notify s n h o)) -> ~ In (w, o') (delivered s) ->
+  o' = o /\ In (n, h, w) (wait s).
+Proof.
+  intros I H Hn. rewrite notify_eq in H by exact I. cbv zeta in H. cbn [with_wcd delivered] in H.
+  apply in_app_or in H. destruct H as [H|H]; [contradiction|].
+  apply in_map_iff in H. destruct H as (w1 & Heq & Hw). inversion Heq; subst. split; [reflexivity|].
+  apply in_map_iff in Hw. destruct Hw as ([[n1 h1] w1] & Hq & Hin). cbn in Hq. subst w1.
+  apply filter_In in Hin. destruct Hin as [Hin Hk]. apply key_is_spec in Hk. destruct Hk as [-> ->]. exact Hin.
+Qed.
+
+Lemma watch_new s w0 h n w o : (forall x, In x (closedch s) -> x < w0) ->
+  In (w, o) (delivered (watch_tx current s w0 h n)) -> ~ In (w, o) (delivered s) ->
+  drained s = true /\ w = w0 /\ o = OClosed.
+Proof.
+  intros Hc H Hn. unfold watch_tx in H. cbv zeta in H. cbn [drained fix_drain current andb] in H.
+  destruct (drained s) eqn:Hd.
+  - rewrite send_ok in H.
+    + cbn [with_wcd delivered] in H. apply in_app_or in H. destruct H as [H|[H|[]]]; [contradiction|].
+      inversion H; subst. auto.
+    + cbn [closedch]. intro Hin. specialize (Hc _ Hin). lia.
+  - cbn [set_wait delivered] in H. contradiction.
+Qed.
+
+Lemma step_delivers s e w o : Inv s ->
+  In (w, o) (delivered (step current s e)) -> ~ In (w, o) (delivered s) -> cause s e w o.
+Proof.
+  intros I H Hn. unfold step in H. rewrite (i_nopanic _ I) in H.
+  assert (Hlt : forall x, In x (closedch s) -> x < next s) by exact (i_ltc _ I).
+  assert (Hcl : drained s = true -> closed s = true).
+  { intro Hd. apply (i_exited _ I). exact (proj2 (i_drained _ I Hd)). }
+  destruct e as [h n|h|h n|blk nonce newtx| |rs| |fb|w0| | |h n|b c1 newtx].
+  - contradiction.
+  - cbn [fresh] in H. cbv zeta in H. cbn [pending] in H. destruct (lookup h (pending s)) as [n|]; [|contradiction].
+    match type of H with In _ (delivered (watch_tx _ ?t ?w1 ?h1 ?n1)) => destruct (watch_new t w1 h1 n1 w o Hlt H Hn) as (Hd & -> & ->) end. cbn [drained] in Hd.
+    right. repeat split; auto. exists h, 0. auto.
+  - cbn [fresh] in H. cbv zeta in H. match type of H with In _ (delivered (watch_tx _ ?t ?w1 ?h1 ?n1)) => destruct (watch_new t w1 h1 n1 w o Hlt H Hn) as (Hd & -> & ->) end. cbn [drained] in Hd.
+    right. repeat split; auto. exists h, n. auto.
+  - destruct (wl_exited s); [contradiction|]. destruct blk; [|contradiction].
+    destruct ((n <=? last_block s) && negb newtx); [contradiction|]. destruct nonce; contradiction.
+  - destruct (chk s); contradiction.
+  - destruct (chk s) as [| |c snap q]; try contradiction. destruct q; [|contradiction].
+    destruct (take_batch snap rs). contradiction.
+  - destruct (chk s) as [| |c snap q]; try contradiction. destruct q; contradiction.
+  - destruct (chk s) as [| |c snap q] eqn:Hk; try contradiction. destruct q as [|[[n h] r] q]; [contradiction|].
+    cbn [set_chk delivered] in H. unfold proc in H. cbn [fix_fallback current] in H.
+    pose proof (i_chk _ I) as Hc. unfold chk_ok in Hc. rewrite Hk in Hc. destruct Hc as (_ & _ & Hq).
+    assert (Hnc : n < c) by (apply (Hq n h r); left; reflexivity).
+    pose proof (add_answer_inv s (c, h, r) I) as I1.
+    assert (K : forall t o1, Inv t -> delivered t = delivered s -> wait t = wait s ->
+                 In (w, o) (delivered (notify t n h o1)) -> resolves h r fb = Some o1 -> cause s (Proc fb) w o).
+    { intros t o1 It Hdt Hwt Hin Hr. destruct (notify_new t n h o1 w o It Hin) as [-> Hw]; [rewrite Hdt; exact Hn|].
+      rewrite Hwt in Hw.
+      assert (C : exists fb0 c0 snap0 n0 h0 r0 q0, Proc fb = Proc fb0 /\ chk s = InFlight c0 snap0 ((n0, h0, r0) :: q0) /\
+                    In (n0, h0, w) (wait s) /\ In (w, h0, n0) (watchers s) /\ n0 < c0 /\ resolves h0 r0 fb0 = Some o1).
+      { exists fb, c, snap, n, h, r, q. repeat split; auto. exact (i_wait_watch _ I _ _ _ Hw). }
+      destruct o1; cbn [cause]; try exact C. exfalso. clear - Hr. unfold resolves in Hr. destruct r; try (destruct fb as [[]|]); discriminate. }
+    destruct r.
+    + eapply K; [exact I1|reflexivity|reflexivity|exact H|reflexivity].
+    + eapply K; [exact I1|reflexivity|reflexivity|exact H|reflexivity].
+    + destruct fb as [[st| | |]|]; try contradiction.
+      * eapply K; [apply add_answer_inv; exact I1|reflexivity|reflexivity|exact H|reflexivity].
+      * eapply K; [apply add_answer_inv; exact I1|reflexivity|reflexivity|exact H|reflexivity].
+    + destruct fb as [[st| | |]|]; try contradiction.
+      * eapply K; [apply add_answer_inv; exact I1|reflexivity|reflexivity|exact H|reflexivity].
+      * eapply K; [apply add_answer_inv; exact I1|reflexivity|reflexivity|exact H|reflexivity].
+  - destruct (lookup w0 (internal s)) as [hh|]; [|contradiction]. destruct (out_of w0 (delivered s)) as [o1|]; [|contradiction].
+    destruct o1; cbn [fix_pending current] in H; try contradiction.
+    destruct (lookup hh (pending (set_internal s (remove_key w0 (internal s))))); contradiction.
+  - contradiction.
+  - destruct (closed s) eqn:Hc; [|contradiction]. destruct (wl_exited s); [contradiction|]. cbn [andb negb] in H.
+    rewrite send_fold in H.
+    + cbn [with_wcd delivered] in H. apply in_app_or in H. destruct H as [H|H]; [contradiction|].
+      apply in_map_iff in H. destruct H as (w1 & Heq & Hw). inversion Heq; subst.
+      apply in_map_iff in Hw. destruct Hw as ([[n1 h1] w1] & Hq & Hin). cbn in Hq. subst w1.
+      left. repeat split; auto. exists n1, h1. exact Hin.
+    + intros w1 Hw. apply in_map_iff in Hw. destruct Hw as (e & <- & He). exact (i_open _ I e He).
+    + exact (i_nodupw _ I).
+  - cbn [fresh] in H. cbv zeta in H. match type of H with In _ (delivered (watch_tx _ ?t ?w1 ?h1 ?n1)) => destruct (watch_new t w1 h1 n1 w o Hlt H Hn) as (Hd & -> & ->) end. cbn [drained] in Hd.
+    right. repeat split; auto. exists h, n. auto.
+  - destruct (wl_exited s); [contradiction|]. destruct ((b <=? last_block s) && negb newtx); contradiction.
+Qed.
+
+Lemma poll_src_app evs e c : poll_src evs c -> poll_src (evs ++ [e]) c.
+Proof. intros (pre & b & nt & post & -> & H1 & H2). exists pre, b, nt, (post ++ [e]). rewrite <- app_assoc. auto. Qed.
+Lemma batch_src_app evs e c n h r : batch_src evs c n h r -> batch_src (evs ++ [e]) c n h r.
+Proof. intros (pre & rs & post & snap & -> & H1 & H2 & H3). exists pre, rs, (post ++ [e]), snap. rewrite <- app_assoc. auto. Qed.
+
+Definition chk_src (evs : list event) (k : checker) : Prop :=
+  match k with
+  | Idle => True
+  | Handed c => poll_src evs c
+  | InFlight c snap q => poll_src evs c /\ forall n h r, In (n, h, r) q -> batch_src evs c n h r
+  end.
+
+Ltac fw := match goal with |- context [chk (watch_tx ?v ?t ?w ?h ?n)] =>
+             let F := fresh "F" in destruct (frame_watch v t w h n) as (_ & _ & _ & F & _); rewrite F; clear F end.
+
+Lemma chk_not_inflight s e : Inv s -> (chk s = Idle \/ exists c, chk s = Handed c) ->
+  chk (step current s e) = chk s \/
+  (chk s = Idle /\ exists b c nt, e = Poll (Some b) (Some c) nt /\ chk (step current s e) = Handed c) \/
+  (exists c, chk s = Handed c /\ e = CheckBegin /\ chk (step current s e) = finish c (older c (wait s)) []).
+Proof.
+  intros I Hk. unfold step. rewrite (i_nopanic _ I).
+  destruct e as [h n|h|h n|blk nonce newtx| |rs| |fb|w| | |h n|b c1 newtx].
+  - left. reflexivity.
+  - left. cbn [fresh]. cbv zeta. cbn [pending]. destruct (lookup h (pending s)); [fw|]; reflexivity.
+  - left. cbn [fresh]. cbv zeta. fw. reflexivity.
+  - destruct (wl_exited s); [left; reflexivity|]. destruct blk as [b|]; [|left; reflexivity].
+    destruct ((b <=? last_block s) && negb newtx); [left; reflexivity|]. destruct nonce as [c|]; [|left; reflexivity].
+    cbn [chk]. destruct Hk as [Hk|[c0 Hk]]; rewrite Hk.
+    + right. left. split; [reflexivity|]. exists b, c, newtx. auto.
+    + left. reflexivity.
+  - destruct Hk as [Hk|[c0 Hk]]; rewrite Hk.
+    + left. cbn. exact Hk.
+    + right. right. exists c0. auto.
+  - left. destruct Hk as [Hk|[c0 Hk]]; rewrite Hk; cbn; exact Hk.
+  - left. destruct Hk as [Hk|[c0 Hk]]; rewrite Hk; cbn; exact Hk.
+  - left. destruct Hk as [Hk|[c0 Hk]]; rewrite Hk; cbn; exact Hk.
+  - left. destruct (lookup w (internal s)) as [hh|]; [|reflexivity]. destruct (out_of w (delivered s)) as [o|]; [|reflexivity].
+    destruct o; cbn [fix_pending current]; try reflexivity.
+    destruct (lookup hh (pending (set_internal s (remove_key w (internal s))))); reflexivity.
+  - left. reflexivity.
+  - left. destruct (closed s && negb (wl_exited s)); [|reflexivity]. cbn [chk].
+    destruct (frame_fold OClosed (map waiter_of (wait s)) s) as (_ & _ & _ & F & _). exact F.
+  - left. cbn [fresh]. cbv zeta. fw. reflexivity.
+  - left. destruct (wl_exited s); [reflexivity|]. destruct ((b <=? last_block s) && negb newtx); reflexivity.
+Qed.
+
+Lemma take_batch_in_snap : forall rs snap snap' q, take_batch snap rs = (snap', q) ->
+  forall n h r, In (n, h, r) q -> In (n, h) snap.
+Proof.
+  induction rs as [|[h0 r0] rs IH]; cbn; intros snap snap' q Ht n h r Hin.
+  - inversion Ht; subst. destruct Hin.
+  - destruct (find_hash h0 snap) as [n0|] eqn:Ef.
+    + destruct (take_batch (drop_hash h0 snap) rs) as [s2 q2] eqn:Et. inversion Ht; subst.
+      destruct Hin as [Heq|Hin].
+      * inversion Heq; subst. apply find_hash_in. exact Ef.
+      * eapply drop_hash_sub. eapply IH; eauto.
+    + eapply IH; eauto.
+Qed.
+
+Lemma chk_src_step evs e : chk_src evs (chk (run current evs)) -> chk_src (evs ++ [e]) (chk (run current (evs ++ [e]))).
+Proof.
+  intro P. rewrite run_snoc. pose proof (inv_run evs) as I. set (s := run current evs) in *.
+  destruct (chk s) as [|c|c snap q] eqn:Hk.
+  - destruct (chk_not_inflight s e I (or_introl Hk)) as [H|[(_ & b & c & nt & -> & H)|(c & Hc & _)]].
+    + rewrite H, Hk. exact Logic.I.
+    + rewrite H. cbn [chk_src]. exists evs, b, nt, []. repeat split; [exact Hk|]. rewrite run_snoc. exact H.
+    + rewrite Hk in Hc. discriminate.
+  - destruct (chk_not_inflight s e I (or_intror (ex_intro _ c Hk))) as [H|[(Hc & _)|(c0 & Hc & -> & H)]].
+    + rewrite H, Hk. cbn [chk_src] in *. apply poll_src_app. exact P.
+    + rewrite Hk in Hc. discriminate.
+    + rewrite Hk in Hc. inversion Hc; subst c0. rewrite H. cbn [chk_src] in P.
+      unfold finish. destruct (older c (wait s)); cbn [chk_src]; [exact Logic.I|].
+      split; [apply poll_src_app; exact P|intros ? ? ? []].
+  - rewrite (chk_adv s c snap q e I Hk). cbn [chk_src] in P. destruct P as [P1 P2].
+    assert (M : forall n h r, In (n, h, r) q -> batch_src (evs ++ [e]) c n h r) by (intros; apply batch_src_app; auto).
+    pose proof (poll_src_app evs e c P1) as P1'.
+    assert (Same : chk_src (evs ++ [e]) (InFlight c snap q)) by (split; assumption).
+    destruct e; cbn [adv]; try exact Same.
+    + destruct q; [|exact Same]. destruct (take_batch snap rs) as [snap' q'] eqn:Et.
+      unfold finish. destruct snap'; destruct q'; cbn [chk_src]; try exact Logic.I;
+        (split; [exact P1'|]); intros n h r Hin; exists evs, rs, [], snap;
+        (split; [reflexivity|]); (split; [exact Hk|]);
+        (split; [eapply take_batch_in_snap; eauto|eapply take_batch_src; eauto]).
+    + destruct q; [exact Logic.I|exact Same].
+    + destruct q as [|x q']; [exact Same|]. unfold finish. destruct snap; destruct q'; cbn [chk_src]; try exact Logic.I;
+        (split; [exact P1'|]); intros n h r Hin; apply M; right; exact Hin.
+Qed.
+
+Theorem chk_src_run : forall evs, chk_src evs (chk (run current evs)).
+Proof.
+  intro evs. induction evs as [|e evs IH] using rev_ind; [exact Logic.I|]. apply chk_src_step. exact IH.
+Qed.
+
+Lemma deliv_dec : forall a b : N * wout, {a = b} + {a <> b}.
+Proof. repeat decide equality; apply N.eq_dec. Qed.
+
+(* ---- the delivery step of an outcome ------------------------------------------------------------ *)
+Theorem delivery_step : forall evs w o, In (w, o) (delivered (run current evs)) ->
+  exists pre e post, evs = pre ++ e :: post /\
+    (forall o', ~ In (w, o') (delivered (run current pre))) /\
+    In (w, o) (delivered (run current (pre ++ [e]))) /\
+    cause (run current pre) e w o.
+Proof.
+  intro evs. induction evs as [|e evs IH] using rev_ind; intros w o H; [destruct H|].
+  destruct (in_dec deliv_dec (w, o) (delivered (run current evs))) as [Hold|Hnew].
+  - destruct (IH w o Hold) as (pre & e0 & post & -> & H1 & H2 & H3).
+    exists pre, e0, (post ++ [e]). rewrite <- app_assoc. auto.
+  - exists evs, e, []. split; [reflexivity|]. rewrite run_snoc in H.
+    split; [|split; [rewrite run_snoc; exact H|]].
+    + intros o' Ho'. (* w already had an outcome: it cannot get another one *)
+      pose proof (delivered_stays evs [e] w o' Ho') as Hs. rewrite run_snoc in Hs.
+      assert (o' = o).
+      { eapply NoDup_fst_unique; [|exact Hs|exact H]. rewrite <- run_snoc. apply at_most_one. }
+      subst. contradiction.
+    + apply step_delivers; [apply inv_run|exact H|exact Hnew].
+Qed.
+
+(* ================= truthfulness, strong form ================================================= *)
+Theorem truthful_strong : forall evs w o, In (w, o) (delivered (run current evs)) -> o <> OClosed ->
+  exists pre fb post c snap n h r q, evs = pre ++ Proc fb :: post /\
+    let s := run current pre in
+    (forall o', ~ In (w, o') (delivered s)) /\
+    chk s = InFlight c snap ((n, h, r) :: q) /\ In (n, h, w) (wait s) /\ In (w, h, n) (watchers s) /\
+    n < c /\ resolves h r fb = Some o /\
+    poll_src pre c /\ batch_src pre c n h r.
+Proof.
+  intros evs w o H Hne. destruct (delivery_step evs w o H) as (pre & e & post & -> & H1 & H2 & H3).
+  destruct o; [| |congruence]; cbn [cause] in H3;
+    destruct H3 as (fb & c & snap & n & h0 & r & q & -> & Hk & Hw & Hwa & Hlt & Hr);
+    pose proof (chk_src_run pre) as P; rewrite Hk in P; destruct P as [P1 P2];
+    exists pre, fb, post, c, snap, n, h0, r, q; (split; [reflexivity|]); cbv zeta;
+    repeat split; auto; apply P2; left; reflexivity.
+Qed.
+
+Lemma resolves_receipt h r fb h' st : resolves h r fb = Some (OReceipt h' st) ->
+  h' = h /\ (r = RReceipt st \/ ((r = RNullOverWire \/ r = RRpcErr) /\ fb = Some (RReceipt st))).
+Proof.
+  unfold resolves. destruct r; try (destruct fb as [[]|]); intro H; inversion H; subst; auto.
+Qed.
+Lemma resolves_cancel h r fb : resolves h r fb = Some OCancelled ->
+  r = RNotFound \/ ((r = RNullOverWire \/ r = RRpcErr) /\ fb = Some RNotFound).
+Proof.
+  unfold resolves. destruct r; try (destruct fb as [[]|]); intro H; inversion H; subst; auto.
+Qed.
+
+Theorem truthful_closed_strong : forall evs w, In (w, OClosed) (delivered (run current evs)) ->
+  exists pre e post, evs = pre ++ e :: post /\ In Close pre /\
+    let s := run current pre in
+    (forall o', ~ In (w, o') (delivered s)) /\
+    ((e = Drain /\ exists n h, In (n, h, w) (wait s)) \/
+     (drained s = true /\ w = next s /\ exists h n, e = Watch h \/ e = WatchRaw h n \/ e = InternalWatch h n)).
+Proof.
+  intros evs w H. destruct (delivery_step evs w OClosed H) as (pre & e & post & -> & H1 & H2 & H3).
+  exists pre, e, post. split; [reflexivity|]. cbn [cause] in H3.
+  assert (Hc : closed (run current pre) = true) by (destruct H3 as [(_ & Hc & _)|(_ & Hc & _)]; exact Hc).
+  split; [exact (s_closed _ _ (src_run pre) Hc)|]. cbv zeta. split; [exact H1|].
+  destruct H3 as [(-> & _ & Hw)|(Hd & _ & -> & Hx)]; [left|right]; auto.
+Qed.
+
+(* ================= the fourth answer: WaitForReceipt refused ("tx not found") ================== *)
+Lemma lookup_in (k : N) : forall (l : list (N * N)) (v : N), lookup k l = Some v -> In (k, v) l.
+Proof.
+  induction l as [|[k' v'] l IH]; cbn; intros v H; [discriminate|].
+  destruct (k' =? k) eqn:E; [apply N.eqb_eq in E; inversion H; subst; auto|auto].
+Qed.
+Lemma out_of_in w : forall d o, out_of w d = Some o -> In (w, o) d.
+Proof.
+  induction d as [|[w' o'] d IH]; cbn; intros o H; [discriminate|].
+  destruct (w' =? w) eqn:E; [apply N.eqb_eq in E; inversion H; subst; auto|auto].
+Qed.
+Lemma lookup_remove_other h h' l : h <> h' -> lookup h (remove_key h' l) = lookup h l.
+Proof.
+  intro Hne. induction l as [|[k v] l IH]; cbn; [reflexivity|].
+  destruct (k =? h') eqn:E1; cbn.
+  - apply N.eqb_eq in E1. subst. destruct (h' =? h) eqn:E2; [apply N.eqb_eq in E2; congruence|exact IH].
+  - destruct (k =? h); [reflexivity|exact IH].
+Qed.
+
+Definition cframe (s s' : mon) : Prop :=
+  internal s' = internal s /\ pending s' = pending s /\ sent s' = sent s /\ watchers s' = watchers s /\
+  refused s' = refused s /\ next s' = next s.
+Lemma cframe_refl s : cframe s s. Proof. repeat split. Qed.
+Lemma cframe_trans a b c : cframe a b -> cframe b c -> cframe a c.
+Proof. unfold cframe. intros (A1 & A2 & A3 & A4 & A5 & A6) (B1 & B2 & B3 & B4 & B5 & B6). repeat split; congruence. Qed.
+Lemma cframe_send s w o : cframe s (send s w o).
+Proof. unfold send. destruct (memN w (closedch s)); repeat split. Qed.
+Lemma cframe_fold o : forall ws s, cframe s (fold_left (fun s w => send s w o) ws s).
+Proof. induction ws; cbn; intro s; [apply cframe_refl|]. eapply cframe_trans; [apply cframe_send|apply IHws]. Qed.
+Lemma cframe_notify s n h o : cframe s (notify s n h o).
+Proof.
+  unfold notify. cbv zeta. destruct (cframe_fold o (map waiter_of (filter (key_is n h) (wait s))) s) as (A1 & A2 & A3 & A4 & A5 & A6).
+  repeat split; cbn [set_wait internal pending sent watchers refused next]; assumption.
+Qed.
+Lemma cframe_proc s c n h r fb : cframe s (proc current s c n h r fb).
+Proof.
+  unfold proc. cbn [fix_fallback current].
+  destruct r; [| |destruct fb as [[]|]..];
+    try (eapply cframe_trans; [|apply cframe_notify]); repeat split.
+Qed.
+(* watchTx: the client fields stay, the watcher is recorded *)
+Lemma watch_fields v s w h n :
+  let s' := watch_tx v s w h n in
+  internal s' = internal s /\ pending s' = pending s /\ sent s' = sent s /\ refused s' = refused s /\ next s' = next s /\
+  watchers s' = watchers s ++ [(w, h, n)].
+Proof.
+  unfold watch_tx. cbv zeta. cbn [drained]. destruct (fix_drain v && drained s).
+  - match goal with |- context [send ?t ?w ?o] => destruct (cframe_send t w o) as (A1 & A2 & A3 & A4 & A5 & A6) end.
+    rewrite A1, A2, A3, A4, A5, A6. repeat split.
+  - repeat split.
+Qed.
+
+(* [Inv2]: the client's own waiters are watchers of their transaction; a sent transaction leaves
+   sentTxs only when its own waiter has consumed a receipt *)
+Record Inv2 (s : mon) : Prop := {
+  j_internal : forall w0 h0, In (w0, h0) (internal s) -> exists n, In (w0, h0, n) (watchers s);
+  j_gone : forall h, In h (sent s) -> lookup h (pending s) = None ->
+           exists w0 n st, In (w0, h, n) (watchers s) /\ In (w0, OReceipt h st) (delivered s)
+}.
+
+Lemma inv2_mono s s' : Inv2 s -> internal s' = internal s -> pending s' = pending s -> sent s' = sent s ->
+  incl (watchers s) (watchers s') -> incl (delivered s) (delivered s') -> Inv2 s'.
+Proof.
+  intros [A B] E1 E2 E3 Hw Hd. constructor.
+  - rewrite E1. intros w0 h0 H. destruct (A w0 h0 H) as (n & Hn). exists n. apply Hw. exact Hn.
+  - rewrite E2, E3. intros h H1 H2. destruct (B h H1 H2) as (w0 & n & st & Hx & Hy). exists w0, n, st. split; [apply Hw|apply Hd]; assumption.
+Qed.
+
+Lemma dext_incl s s' : dext s s' -> incl (delivered s) (delivered s').
+Proof. intros [l H] x Hx. rewrite H. apply in_or_app. auto. Qed.
+
+Lemma inv2_step s e : Inv s -> Inv2 s -> Inv2 (step current s e).
+Proof.
+  intros I J. pose proof (dext_incl _ _ (dext_step s e)) as Hd. revert Hd. unfold step. rewrite (i_nopanic _ I).
+  assert (Same : forall s', cframe s s' -> incl (delivered s) (delivered s') -> Inv2 s').
+  { intros s' (A1 & A2 & A3 & A4 & A5 & A6) Hd. apply (inv2_mono s s' J A1 A2 A3); [rewrite A4; apply incl_refl|exact Hd]. }
+  destruct e as [h n|h|h n|blk nonce newtx| |rs| |fb|w| | |h n|b c1 newtx]; intro Hd.
+  - (* Sent *) destruct J as [A B]. constructor; cbn [internal watchers sent pending delivered].
+    + exact A.
+    + intros h0 H1 H2. cbn [lookup] in H2. destruct (h =? h0) eqn:E; [discriminate|].
+      assert (Hne : h0 <> h) by (intro; subst; rewrite N.eqb_refl in E; discriminate).
+      rewrite lookup_remove_other in H2 by exact Hne.
+      apply in_app_or in H1. destruct H1 as [H1|[H1|[]]]; [exact (B h0 H1 H2)|congruence].
+  - (* Watch *) cbn [fresh] in *. cbv zeta in *. cbn [pending] in *. destruct (lookup h (pending s)) as [n|].
+    + match goal with |- Inv2 (watch_tx ?v ?t ?w ?h ?n) => destruct (watch_fields v t w h n) as (A1 & A2 & A3 & A4 & A5 & A6) end.
+      eapply (inv2_mono s); [exact J|exact A1|exact A2|exact A3| |exact Hd].
+      rewrite A6. cbn [watchers]. apply incl_appl, incl_refl.
+    + eapply (inv2_mono s); [exact J|reflexivity|reflexivity|reflexivity|apply incl_refl|exact Hd].
+  - (* WatchRaw *) cbn [fresh] in *. cbv zeta in *.
+    match goal with |- Inv2 (watch_tx ?v ?t ?w ?h ?n) => destruct (watch_fields v t w h n) as (A1 & A2 & A3 & A4 & A5 & A6) end.
+    eapply (inv2_mono s); [exact J|exact A1|exact A2|exact A3| |exact Hd].
+    rewrite A6. cbn [watchers]. apply incl_appl, incl_refl.
+  - destruct (wl_exited s); [exact J|]. destruct blk; [|exact J].
+    destruct ((n <=? last_block s) && negb newtx); [exact J|]. destruct nonce; [|exact J]. apply Same; [repeat split|exact Hd].
+  - destruct (chk s); try exact J. apply Same; [repeat split|exact Hd].
+  - destruct (chk s) as [| |c snap q]; try exact J. destruct q; [|exact J]. destruct (take_batch snap rs).
+    apply Same; [repeat split|exact Hd].
+  - destruct (chk s) as [| |c snap q]; try exact J. destruct q; [|exact J]. apply Same; [repeat split|exact Hd].
+  - destruct (chk s) as [| |c snap q]; try exact J. destruct q as [|[[n h] r] q]; [exact J|].
+    apply Same; [|exact Hd]. destruct (cframe_proc s c n h r fb) as (A1 & A2 & A3 & A4 & A5 & A6). repeat split; assumption.
+  - (* InternalRun *)
+    destruct (lookup w (internal s)) as [hh|] eqn:El; [|exact J]. destruct (out_of w (delivered s)) as [o|] eqn:Eo; [|exact J].
+    destruct J as [A B].
+    assert (A' : forall w0 h0, In (w0, h0) (remove_key w (internal s)) -> exists n, In (w0, h0, n) (watchers s)).
+    { intros w0 h0 H. apply A. eapply remove_key_sub. exact H. }
+    destruct o as [h1 st| |]; cbn [fix_pending current].
+    + constructor; cbn [set_pending set_internal internal watchers sent pending delivered]; [exact A'|].
+      intros h0 H1 H2. destruct (N.eq_dec h0 hh) as [->|Hne].
+      * apply lookup_in in El. destruct (A w hh El) as (n & Hn).
+        apply out_of_in in Eo. destruct (i_receipt _ I _ _ _ Eo) as (n' & c & Hw' & _).
+        assert (E : (w, h1, n') = (w, hh, n)).
+        { apply (NoDup_map_inj (fun e => fst (fst e)) (watchers s)); auto. apply (i_nodupwatch _ I). }
+        inversion E; subst. exists w, n, st. auto.
+      * rewrite lookup_remove_other in H2 by exact Hne. exact (B h0 H1 H2).
+    + destruct (lookup hh (pending (set_internal s (remove_key w (internal s)))));
+        constructor; cbn [set_flagged set_internal internal watchers sent pending delivered]; auto.
+    + constructor; cbn [set_internal internal watchers sent pending delivered]; auto.
+  - apply Same; [repeat split|exact Hd].
+  - destruct (closed s && negb (wl_exited s)); [|exact J]. apply Same; [|exact Hd].
+    destruct (cframe_fold OClosed (map waiter_of (wait s)) s) as (A1 & A2 & A3 & A4 & A5 & A6).
+    repeat split; cbn [internal pending sent watchers refused next]; assumption.
+  - (* InternalWatch *) cbn [fresh] in *. cbv zeta in *.
+    match goal with |- Inv2 (watch_tx ?v ?t ?w ?h ?n) => destruct (watch_fields v t w h n) as (A1 & A2 & A3 & A4 & A5 & A6) end.
+    destruct J as [A B]. constructor.
+    + rewrite A1, A6. cbn [internal watchers]. intros w0 h0 H. apply in_app_or in H. destruct H as [H|[H|[]]].
+      * destruct (A w0 h0 H) as (n0 & Hn). exists n0. apply in_or_app. auto.
+      * inversion H; subst. exists n. apply in_or_app. right. left. reflexivity.
+    + rewrite A2, A3, A6. cbn [pending sent watchers]. intros h0 H1 H2. destruct (B h0 H1 H2) as (w0 & n0 & st & Hx & Hy).
+      exists w0, n0, st. split; [apply in_or_app; auto|apply Hd; exact Hy].
+  - destruct (wl_exited s); [exact J|]. destruct ((b <=? last_block s) && negb newtx); [exact J|].
+    apply Same; [repeat split|exact Hd].
+Qed.
+
+Theorem inv2_run : forall evs, Inv2 (run current evs).
+Proof.
+  intro evs. induction evs as [|e evs IH] using rev_ind.
+  - constructor; cbn; intros; contradiction.
+  - rewrite run_snoc. apply inv2_step; [apply inv_run|exact IH].
+Qed.
+
+(* who is refused: the step that refuses *)
+Lemma refused_step s e w : Inv s -> In w (refused (step current s e)) -> ~ In w (refused s) ->
+  exists h, e = Watch h /\ w = next s /\ lookup h (pending s) = None.
+Proof.
+  intros I H Hn. unfold step in H. rewrite (i_nopanic _ I) in H.
+  destruct e as [h n|h|h n|blk nonce newtx| |rs| |fb|w0| | |h n|b c1 newtx].
+  - contradiction.
+  - cbn [fresh] in H. cbv zeta in H. cbn [pending] in H. destruct (lookup h (pending s)) as [n|] eqn:El.
+    + match type of H with In _ (refused (watch_tx ?v ?t ?w1 ?h1 ?n1)) => destruct (watch_fields v t w1 h1 n1) as (_ & _ & _ & A4 & _); rewrite A4 in H end.
+      contradiction.
+    + cbn [refused] in H. apply in_app_or in H. destruct H as [H|[<-|[]]]; [contradiction|]. exists h. auto.
+  - cbn [fresh] in H. cbv zeta in H.
+    match type of H with In _ (refused (watch_tx ?v ?t ?w1 ?h1 ?n1)) => destruct (watch_fields v t w1 h1 n1) as (_ & _ & _ & A4 & _); rewrite A4 in H end.
+    contradiction.
+  - destruct (wl_exited s); [contradiction|]. destruct blk; [|contradiction].
+    destruct ((n <=? last_block s) && negb newtx); [contradiction|]. destruct nonce; contradiction.
+  - destruct (chk s); contradiction.
+  - destruct (chk s) as [| |c snap q]; try contradiction. destruct q; [|contradiction]. destruct (take_batch snap rs). contradiction.
+  - destruct (chk s) as [| |c snap q]; try contradiction. destruct q; contradiction.
+  - destruct (chk s) as [| |c snap q]; try contradiction. destruct q as [|[[n h] r] q]; [contradiction|].
+    cbn [set_chk refused] in H. destruct (cframe_proc s c n h r fb) as (_ & _ & _ & _ & A5 & _). rewrite A5 in H. contradiction.
+  - destruct (lookup w0 (internal s)) as [hh|]; [|contradiction]. destruct (out_of w0 (delivered s)) as [o|]; [|contradiction].
+    destruct o; cbn [fix_pending current] in H; try contradiction.
+    destruct (lookup hh (pending (set_internal s (remove_key w0 (internal s))))); contradiction.
+  - contradiction.
+  - destruct (closed s && negb (wl_exited s)); [|contradiction]. cbn [refused] in H.
+    destruct (cframe_fold OClosed (map waiter_of (wait s)) s) as (_ & _ & _ & _ & A5 & _). rewrite A5 in H. contradiction.
+  - cbn [fresh] in H. cbv zeta in H.
+    match type of H with In _ (refused (watch_tx ?v ?t ?w1 ?h1 ?n1)) => destruct (watch_fields v t w1 h1 n1) as (_ & _ & _ & A4 & _); rewrite A4 in H end.
+    contradiction.
+  - destruct (wl_exited s); [contradiction|]. destruct ((b <=? last_block s) && negb newtx); contradiction.
+Qed.
+
+Lemma refused_lt : forall evs w, In w (refused (run current evs)) -> w < next (run current evs).
+Proof.
+  intro evs. induction evs as [|e evs IH] using rev_ind; intros w H; [destruct H|].
+  destruct (in_dec N.eq_dec w (refused (run current evs))) as [Ho|Hn].
+  - specialize (IH w Ho). rewrite run_snoc.
+    assert (Mono : next (run current evs) <= next (step current (run current evs) e)).
+    { set (s := run current evs). unfold step. destruct (panicked s); [lia|].
+      destruct e as [h n|h|h n|blk nonce newtx| |rs| |fb|w0| | |h n|b c1 newtx]; cbn [next]; try lia.
+      - cbn [fresh]. cbv zeta. cbn [pending]. destruct (lookup h (pending s)).
+        + match goal with |- _ <= next (watch_tx ?v ?t ?w1 ?h1 ?n1) => destruct (watch_fields v t w1 h1 n1) as (_ & _ & _ & _ & A5 & _); rewrite A5 end. cbn [next set_pending set_internal set_flagged set_chk set_wait]. lia.
+        + cbn [next set_pending set_internal set_flagged set_chk set_wait]. lia.
+      - cbn [fresh]. cbv zeta. match goal with |- _ <= next (watch_tx ?v ?t ?w1 ?h1 ?n1) => destruct (watch_fields v t w1 h1 n1) as (_ & _ & _ & _ & A5 & _); rewrite A5 end. cbn [next set_pending set_internal set_flagged set_chk set_wait]. lia.
+      - destruct (wl_exited s); [lia|]. destruct blk; [|lia]. destruct ((n <=? last_block s) && negb newtx); [lia|]. destruct nonce; cbn [next set_pending set_internal set_flagged set_chk set_wait]; lia.
+      - destruct (chk s); cbn [next set_pending set_internal set_flagged set_chk set_wait]; lia.
+      - destruct (chk s) as [| |c snap q]; try lia. destruct q; [|lia]. destruct (take_batch snap rs). cbn [next set_pending set_internal set_flagged set_chk set_wait]. lia.
+      - destruct (chk s) as [| |c snap q]; try lia. destruct q; cbn [next set_pending set_internal set_flagged set_chk set_wait]; lia.
+      - destruct (chk s) as [| |c snap q]; try lia. destruct q as [|[[n h] r] q]; [lia|]. cbn [set_chk next].
+        destruct (cframe_proc s c n h r fb) as (_ & _ & _ & _ & _ & A6). rewrite A6. lia.
+      - destruct (lookup w0 (internal s)) as [hh|]; [|lia]. destruct (out_of w0 (delivered s)) as [o|]; [|lia].
+        destruct o; cbn [fix_pending current]; cbn [next set_pending set_internal set_flagged set_chk set_wait]; try lia.
+        destruct (lookup hh (pending (set_internal s (remove_key w0 (internal s))))); cbn [next set_pending set_internal set_flagged set_chk set_wait]; lia.
+      - destruct (closed s && negb (wl_exited s)); [|lia]. cbn [next].
+        destruct (cframe_fold OClosed (map waiter_of (wait s)) s) as (_ & _ & _ & _ & _ & A6). rewrite A6. lia.
+      - cbn [fresh]. cbv zeta. match goal with |- _ <= next (watch_tx ?v ?t ?w1 ?h1 ?n1) => destruct (watch_fields v t w1 h1 n1) as (_ & _ & _ & _ & A5 & _); rewrite A5 end. cbn [next set_pending set_internal set_flagged set_chk set_wait]. lia.
+      - destruct (wl_exited s); [lia|]. destruct ((b <=? last_block s) && negb newtx); cbn [next set_pending set_internal set_flagged set_chk set_wait]; lia. }
+    lia.
+  - rewrite run_snoc in H. destruct (refused_step _ e w (inv_run evs) H Hn) as (h & -> & -> & _).
+    rewrite run_snoc. pose proof (i_nopanic _ (inv_run evs)) as Hp. set (s := run current evs) in *. unfold step. rewrite Hp.
+    cbn [fresh]. cbv zeta. cbn [pending]. destruct (lookup h (pending s)).
+    + match goal with |- _ < next (watch_tx ?v ?t ?w1 ?h1 ?n1) => destruct (watch_fields v t w1 h1 n1) as (_ & _ & _ & _ & A5 & _); rewrite A5 end. cbn [next set_pending set_internal set_flagged set_chk set_wait]. lia.
+    + cbn [next set_pending set_internal set_flagged set_chk set_wait]. lia.
+Qed.
+
+(* A WaitForReceipt call is answered "tx not found" -- and its caller is never registered, never
+   gets a channel outcome -- only for a hash the client never sent, or for a transaction whose
+   receipt the client's own waiter has already consumed (mined); never for a transaction that is
+   still listed or that was cancelled (its entry is kept). *)
+Theorem refused_only_unsent_or_mined : forall evs w, In w (refused (run current evs)) ->
+  exists pre h post, evs = pre ++ Watch h :: post /\ w = next (run current pre) /\
+    (forall h' n', ~ In (w, h', n') (watchers (run current evs))) /\
+    (~ In h (sent (run current pre)) \/
+     exists w0 n st, In (w0, h, n) (watchers (run current pre)) /\ In (w0, OReceipt h st) (delivered (run current pre))).
+Proof.
+  intro evs. induction evs as [|e evs IH] using rev_ind; intros w H; [destruct H|].
+  assert (Keep : forall x, In x (watchers (run current (evs ++ [e]))) -> In x (watchers (run current evs)) \/ fst (fst x) = next (run current evs)).
+  { intros x Hx. rewrite run_snoc in Hx. pose proof (inv_run evs) as I. set (s := run current evs) in *.
+    unfold step in Hx. rewrite (i_nopanic _ I) in Hx.
+    destruct e as [h n|h|h n|blk nonce newtx| |rs| |fb|w0| | |h n|b c1 newtx]; try (left; exact Hx).
+    - cbn [fresh] in Hx. cbv zeta in Hx. cbn [pending] in Hx. destruct (lookup h (pending s)) as [n|]; [|left; exact Hx].
+      match type of Hx with In _ (watchers (watch_tx ?v ?t ?w1 ?h1 ?n1)) => destruct (watch_fields v t w1 h1 n1) as (_ & _ & _ & _ & _ & A6); rewrite A6 in Hx end.
+      apply in_app_or in Hx. destruct Hx as [Hx|[<-|[]]]; auto.
+    - cbn [fresh] in Hx. cbv zeta in Hx.
+      match type of Hx with In _ (watchers (watch_tx ?v ?t ?w1 ?h1 ?n1)) => destruct (watch_fields v t w1 h1 n1) as (_ & _ & _ & _ & _ & A6); rewrite A6 in Hx end.
+      apply in_app_or in Hx. destruct Hx as [Hx|[<-|[]]]; auto.
+    - left. destruct (wl_exited s); [exact Hx|]. destruct blk; [|exact Hx].
+      destruct ((n <=? last_block s) && negb newtx); [exact Hx|]. destruct nonce; exact Hx.
+    - left. destruct (chk s); exact Hx.
+    - left. destruct (chk s) as [| |c snap q]; try exact Hx. destruct q; [|exact Hx]. destruct (take_batch snap rs). exact Hx.
+    - left. destruct (chk s) as [| |c snap q]; try exact Hx. destruct q; exact Hx.
+    - left. destruct (chk s) as [| |c snap q]; try exact Hx. destruct q as [|[[n h] r] q]; [exact Hx|].
+      cbn [set_chk watchers] in Hx. destruct (cframe_proc s c n h r fb) as (_ & _ & _ & A4 & _). rewrite A4 in Hx. exact Hx.
+    - left. destruct (lookup w0 (internal s)) as [hh|]; [|exact Hx]. destruct (out_of w0 (delivered s)) as [o|]; [|exact Hx].
+      destruct o; cbn [fix_pending current] in Hx; try exact Hx.
+      destruct (lookup hh (pending (set_internal s (remove_key w0 (internal s))))); exact Hx.
+    - left. destruct (closed s && negb (wl_exited s)); [|exact Hx]. cbn [watchers] in Hx.
+      destruct (cframe_fold OClosed (map waiter_of (wait s)) s) as (_ & _ & _ & A4 & _). rewrite A4 in Hx. exact Hx.
+    - cbn [fresh] in Hx. cbv zeta in Hx.
+      match type of Hx with In _ (watchers (watch_tx ?v ?t ?w1 ?h1 ?n1)) => destruct (watch_fields v t w1 h1 n1) as (_ & _ & _ & _ & _ & A6); rewrite A6 in Hx end.
+      apply in_app_or in Hx. destruct Hx as [Hx|[<-|[]]]; auto.
+    - left. destruct (wl_exited s); [exact Hx|]. destruct ((b <=? last_block s) && negb newtx); exact Hx. }
+  destruct (in_dec N.eq_dec w (refused (run current evs))) as [Hold|Hnew].
+  - destruct (IH w Hold) as (pre & h & post & Eq & Hw & Hnot & Hwhy).
+    exists pre, h, (post ++ [e]). split; [rewrite Eq, <- app_assoc; reflexivity|]. repeat split; auto.
+    intros h' n' Hx. destruct (Keep _ Hx) as [Hx'|Hx']; [exact (Hnot _ _ Hx')|]. cbn in Hx'.
+    pose proof (refused_lt evs _ Hold). lia.
+  - rewrite run_snoc in H. destruct (refused_step _ e w (inv_run evs) H Hnew) as (h & -> & -> & Hl).
+    exists evs, h, []. split; [reflexivity|]. split; [reflexivity|]. split.
+    + intros h' n' Hx. destruct (Keep _ Hx) as [Hx'|Hx'].
+      * pose proof (i_ltwatch _ (inv_run evs) _ _ _ Hx'). lia.
+      * (* the Watch step itself registered nobody: lookup = None *)
+        rewrite run_snoc in Hx. pose proof (i_nopanic _ (inv_run evs)) as Hp. set (s := run current evs) in *. unfold step in Hx. rewrite Hp in Hx.
+        cbn [fresh] in Hx. cbv zeta in Hx. cbn [pending] in Hx. rewrite Hl in Hx. cbn [watchers] in Hx.
+        pose proof (i_ltwatch _ (inv_run evs)) as Hl2. fold s in Hl2. specialize (Hl2 _ _ _ Hx). lia.
+    + destruct (in_dec N.eq_dec h (sent (run current evs))) as [Hs|Hs]; [right|left; exact Hs].
+      exact (j_gone _ (inv2_run evs) h Hs Hl).
+Qed.
+
+(* ---- idle but not yet receiving: the hand-over of a new block can be lost -------------------- *)
+Theorem handoff_lost_consumes_block : forall s b c nt, panicked s = false -> wl_exited s = false ->
+  last_block s < b ->
+  let s' := step current s (PollLost b c nt) in
+  chk s' = chk s /\ wait s' = wait s /\ delivered s' = delivered s /\ last_block s' = b.
+Proof.
+  intros s b c nt Hp Hx Hb s'. unfold s', step. rewrite Hp, Hx.
+  assert (E : (b <=? last_block s) = false) by (apply N.leb_gt; exact Hb). rewrite E. cbn [andb]. auto.
+Qed.
+
+(* the waiter of a mined transaction is not looked at when the poll of the new block hits the
+   checker between two rounds (check() returned, checkLoop not yet back in its select); later
+   polls of the same block do nothing; the next block resolves it *)
+Example handoff_lost_demo : forall k,
+  let pre := [Sent 1 0; InternalWatch 1 0; WatchRaw 1 0; PollLost 6 1 false] in
+  let s := run current (pre ++ repeat (Poll (Some 6) (Some 1) false) k) in
+  wait s = [(0, 1, 0); (0, 1, 1)] /\ delivered s = [] /\ chk s = Idle /\ last_block s = 6 /\
+  delivered (run current ((pre ++ repeat (Poll (Some 6) (Some 1) false) k) ++
+                          [Poll (Some 7) (Some 1) false; CheckBegin; BatchReply [(1, RReceipt 1)]; Proc None]))
+  = [(0, OReceipt 1 1); (1, OReceipt 1 1)].
+Proof.
+  intros k pre s.
+  assert (E : run current (pre ++ repeat (Poll (Some 6) (Some 1) false) k) = run current pre).
+  { apply stalled_without_new_block. apply Forall_forall. intros e He. apply repeat_spec in He. subst e.
+    exists 6, (Some 1). split; [reflexivity|]. vm_compute. discriminate. }
+  unfold s. rewrite E. repeat split; try (vm_compute; reflexivity).
+  unfold run. rewrite fold_left_app. fold (run current (pre ++ repeat (Poll (Some 6) (Some 1) false) k)).
+  rewrite E. vm_compute. reflexivity.
+Qed.
+
+(* ---- the pending list: a resolved transaction stays out ------------------------------------- *)
+Definition pframe (s s' : mon) : Prop := pending s' = pending s /\ flagged s' = flagged s.
+Lemma pframe_refl s : pframe s s. Proof. split; reflexivity. Qed.
+Lemma pframe_trans a b c : pframe a b -> pframe b c -> pframe a c.
+Proof. intros [A1 A2] [B1 B2]. split; congruence. Qed.
+Lemma pframe_send s w o : pframe s (send s w o).
+Proof. unfold send. destruct (memN w (closedch s)); split; reflexivity. Qed.
+Lemma pframe_fold o : forall ws s, pframe s (fold_left (fun s w => send s w o) ws s).
+Proof. induction ws; cbn; intro s; [apply pframe_refl|]. eapply pframe_trans; [apply pframe_send|apply IHws]. Qed.
+Lemma pframe_notify s n h o : pframe s (notify s n h o).
+Proof.
+  unfold notify. cbv zeta. destruct (pframe_fold o (map waiter_of (filter (key_is n h) (wait s))) s) as [A1 A2].
+  split; cbn [set_wait pending flagged]; assumption.
+Qed.
+Lemma pframe_proc s c n h r fb : pframe s (proc current s c n h r fb).
+Proof.
+  unfold proc. cbn [fix_fallback current].
+  destruct r; [| |destruct fb as [[]|]..]; try (eapply pframe_trans; [|apply pframe_notify]); split; reflexivity.
+Qed.
+Lemma pframe_watch v s w h n : pframe s (watch_tx v s w h n).
+Proof.
+  unfold watch_tx. cbv zeta. cbn [drained]. destruct (fix_drain v && drained s).
+  - eapply pframe_trans; [|apply pframe_send]. split; reflexivity.
+  - split; reflexivity.
+Qed.
+
+Lemma ph_frame s s' h : pframe s s' -> In h (pending_hashes s') -> In h (pending_hashes s).
+Proof. intros [A1 A2]. unfold pending_hashes. rewrite A1, A2. auto. Qed.
+
+Lemma memN_filter_other h h' l : h <> h' -> memN h (filter (fun k => negb (k =? h')) l) = memN h l.
+Proof.
+  intro Hne. unfold memN. induction l as [|k l IH]; [reflexivity|]. cbn [filter existsb].
+  destruct (k =? h') eqn:E; cbn [negb existsb].
+  - apply N.eqb_eq in E. subst. destruct (h =? h') eqn:E2; [apply N.eqb_eq in E2; congruence|exact IH].
+  - rewrite IH. reflexivity.
+Qed.
+
+Lemma pending_hashes_step s e h : In h (pending_hashes (step current s e)) ->
+  In h (pending_hashes s) \/ exists n, e = Sent h n.
+Proof.
+  unfold step. destruct (panicked s); [auto|].
+  destruct e as [h0 n|h0|h0 n|blk nonce newtx| |rs| |fb|w| | |h0 n|b c1 newtx]; intro H.
+  - destruct (N.eq_dec h h0) as [->|Hne]; [right; eauto|left].
+    unfold pending_hashes in *. cbn [pending flagged] in H. apply filter_In in H. destruct H as [H1 H2].
+    apply filter_In. rewrite memN_filter_other in H2 by exact Hne. split; [|exact H2].
+    cbn [map] in H1. destruct H1 as [H1|H1]; [cbn in H1; congruence|].
+    apply in_map_iff in H1. destruct H1 as (x & <- & Hx). apply in_map. eapply remove_key_sub. exact Hx.
+  - left. cbn [fresh] in H. cbv zeta in H. cbn [pending] in H. destruct (lookup h0 (pending s)); [|exact H].
+    eapply ph_frame; [|exact H]. eapply pframe_trans; [|apply pframe_watch]. split; reflexivity.
+  - left. cbn [fresh] in H. cbv zeta in H. eapply ph_frame; [|exact H]. eapply pframe_trans; [|apply pframe_watch]. split; reflexivity.
+  - left. destruct (wl_exited s); [exact H|]. destruct blk; [|exact H].
+    destruct ((n <=? last_block s) && negb newtx); [exact H|]. destruct nonce; exact H.
+  - left. destruct (chk s); exact H.
+  - left. destruct (chk s) as [| |c snap q]; try exact H. destruct q; [|exact H]. destruct (take_batch snap rs). exact H.
+  - left. destruct (chk s) as [| |c snap q]; try exact H. destruct q; exact H.
+  - left. destruct (chk s) as [| |c snap q]; try exact H. destruct q as [|[[n h1] r] q]; [exact H|].
+    eapply ph_frame; [|exact H]. destruct (pframe_proc s c n h1 r fb) as [A1 A2]. split; cbn [set_chk pending flagged]; assumption.
+  - left. destruct (lookup w (internal s)) as [hh|]; [|exact H]. destruct (out_of w (delivered s)) as [o|]; [|exact H].
+    unfold pending_hashes in *. destruct o; cbn [fix_pending current] in H.
+    + cbn [set_pending set_internal pending flagged] in H. apply filter_In in H. destruct H as [H1 H2].
+      apply filter_In. split; [|exact H2]. apply in_map_iff in H1. destruct H1 as (x & <- & Hx). apply in_map.
+      eapply remove_key_sub. exact Hx.
+    + destruct (lookup hh (pending (set_internal s (remove_key w (internal s))))); [|exact H].
+      cbn [set_flagged set_internal pending flagged] in H. apply filter_In in H. destruct H as [H1 H2].
+      apply filter_In. split; [exact H1|]. cbn [memN existsb] in H2. apply negb_true_iff in H2. apply orb_false_iff in H2.
+      apply negb_true_iff. exact (proj2 H2).
+    + exact H.
+  - left. exact H.
+  - left. destruct (closed s && negb (wl_exited s)); [|exact H]. eapply ph_frame; [|exact H].
+    destruct (pframe_fold OClosed (map waiter_of (wait s)) s) as [A1 A2]. split; cbn [pending flagged]; assumption.
+  - left. cbn [fresh] in H. cbv zeta in H. eapply ph_frame; [|exact H]. eapply pframe_trans; [|apply pframe_watch]. split; reflexivity.
+  - left. destruct (wl_exited s); [exact H|]. destruct ((b <=? last_block s) && negb newtx); exact H.
+Qed.
+
+Theorem pending_resolved_stays : forall evs' s h, ~ In h (pending_hashes s) ->
+  (forall n, ~ In (Sent h n) evs') -> ~ In h (pending_hashes (run_from current s evs')).
+Proof.
+  induction evs' as [|e evs' IH]; intros s h Hn Hs; cbn [run_from fold_left]; [exact Hn|].
+  apply IH.
+  - intro H. destruct (pending_hashes_step s e h H) as [H'|(n & ->)]; [exact (Hn H')|].
+    exact (Hs n (or_introl eq_refl)).
+  - intros n Hin. exact (Hs n (or_intror Hin)).
+Qed.
+
+(* state form of the provenance (the invariant itself) *)
+Theorem truthful_receipt_state : forall evs w h st, In (w, OReceipt h st) (delivered (run current evs)) ->
+  exists n c, In (w, h, n) (watchers (run current evs)) /\ In (c, h, RReceipt st) (answers (run current evs)).
+Proof. intros evs w h st H. exact (i_receipt _ (inv_run evs) _ _ _ H). Qed.
+Theorem truthful_cancel_state : forall evs w, In (w, OCancelled) (delivered (run current evs)) ->
+  exists h n c r, In (w, h, n) (watchers (run current evs)) /\ In (c, h, r) (answers (run current evs)) /\
+                  no_receipt r = true /\ n < c /\ In c (confs (run current evs)).
+Proof. intros evs w H. exact (i_cancel _ (inv_run evs) _ H). Qed.
